@@ -17,6 +17,7 @@ type Item struct {
 	Func    string
 	Shape   []int
 	MapDesc bool
+	Solver  int // 0: default of the run, otherwise SolverKind+1
 }
 
 type RunOpts struct {
@@ -83,14 +84,28 @@ func runItems(eng *Engine, items []Item, opts RunOpts, known map[string]bool) []
 		wg.Add(1)
 		go func() {
 			defer wg.Done()
-			sol, err := NewSolver(opts.Solver, opts.TimeoutMs)
-			if err != nil {
-				panic(err)
-			}
-			defer sol.Close()
+			sols := map[SolverKind]*Solver{}
+			defer func() {
+				for _, s := range sols {
+					s.Close()
+				}
+			}()
 			for i := range idx {
 				it := items[i]
 				t0 := time.Now()
+				kind := opts.Solver
+				if it.Solver > 0 {
+					kind = SolverKind(it.Solver - 1)
+				}
+				sol := sols[kind]
+				if sol == nil {
+					var err error
+					sol, err = NewSolver(kind, opts.TimeoutMs)
+					if err != nil {
+						panic(err)
+					}
+					sols[kind] = sol
+				}
 				sol.Reset()
 				sol.Stats = QueryStats{TimeBy: map[string]float64{}}
 				ex := &Exec{eng: eng, ctx: NewCtx(), sol: sol, cfg: ExecCfg{MaxPaths: opts.MaxPaths, MaxSteps: opts.MaxSteps, MaxVisits: opts.MaxVisits, MapDesc: it.MapDesc, Known: known, MaxConc: 1024}}
